@@ -124,7 +124,7 @@ type leafVal struct {
 func foldState(vals []leafVal) string {
 	var seen []string
 	for _, v := range vals {
-		if v.critical {
+		if v.critical && v.state != "INVARIANT" { // a call whose hooks were collected has no opinion (TestHooksCollected)
 			seen = append(seen, v.state)
 		}
 	}
@@ -193,6 +193,9 @@ func compare(tree *Node, b *built, model map[string]*leafVal, when string) (viol
 		gotState, gotStatus := r.GetState().String(), r.GetStatus().String()
 		if n.Kind != "agg" {
 			// a leaf reports what it was told
+			if model[p].state == "INVARIANT" && r.GetState() == sm.INVARIANT {
+				gotState = "INVARIANT"
+			}
 			if gotState != model[p].state || gotStatus != model[p].status {
 				violation = fmt.Sprintf("%s: leaf %s reports state=%s status=%s, was told state=%s status=%s", when, p, gotState, gotStatus, model[p].state, model[p].status)
 				sig = "leaf-value"
